@@ -903,14 +903,15 @@ Lemma step_event_accepts w' ev' rep :
   step_event_gen au ps w ev = (w', Accepted ev' rep) ->
   valid ev = true /\ regenerate_gen au ps (w_next w) ev = (w_next w', ev', rep) /\ w_log w' = w_log w ++ event_ids ev'.
 Proof.
-  unfold step_event_gen. destruct (valid ev); [|discriminate].
+  unfold step_event_gen. destruct (accepts w ev) eqn:AC; [|discriminate].
+  unfold accepts in AC. apply andb_true_iff in AC. destruct AC as [AC _]. rewrite AC.
   destruct (regenerate_gen au ps (w_next w) ev) as [[g' e'] r']. intros E. inversion E; subst. cbn. auto.
 Qed.
 
 Lemma step_event_inv w' o : step_event_gen au ps w ev = (w', o) -> inv K w'.
 Proof.
   destruct o as [|ev' rep].
-  - unfold step_event_gen. destruct (valid ev).
+  - unfold step_event_gen. destruct (accepts w ev).
     + destruct (regenerate_gen au ps (w_next w) ev) as [[g' e'] r']. discriminate.
     + intros E. inversion E; subst. eapply inv_weaken; [|exact Hinv]. lia.
   - intros E. destruct (step_event_accepts _ _ _ E) as (Hv & RG & LOG).
@@ -936,7 +937,7 @@ Hypothesis Harg : au = true \/ Forall (fun r => is_raw (r_id r) = true) (e_arg e
 Lemma step_event_inv_u w' o : step_event_gen au ps w ev = (w', o) -> inv_u w'.
 Proof.
   destruct o as [|ev' rep].
-  - unfold step_event_gen. destruct (valid ev).
+  - unfold step_event_gen. destruct (accepts w ev).
     + destruct (regenerate_gen au ps (w_next w) ev) as [[g' e'] r']. discriminate.
     + intros E. inversion E; subst. exact Hu.
   - intros E. destruct (step_event_accepts _ _ _ E) as (Hv & RG & LOG).
